@@ -76,6 +76,8 @@ class FakeS3:
         self.after: List[Callable[[Req, Any], None]] = []  # called after (result or exc)
         self.nreq = 0
         self.digest = 0  # order independent digest of (key, etag, lm)
+        self.page_size = 1000  # keys per list_objects_v2 page (AWS: 1000); small values exercise pagination
+        self.clock_skew = 0.0  # server clock minus client clock (LastModified is stamped by the server)
 
     # ---- state ----------------------------------------------------------
     def clone_state(self) -> Dict[str, Obj]:
@@ -97,7 +99,7 @@ class FakeS3:
         old = self.objs.get(key)
         if old is not None:
             self.digest ^= self._h(key, old)
-        o = Obj(bytes(body), ENV.clock)
+        o = Obj(bytes(body), ENV.clock + self.clock_skew)
         self.objs[key] = o
         self.digest ^= self._h(key, o)
         ENV.on_publish(key)
@@ -213,13 +215,20 @@ class FakeS3:
         self._done(req, res)
         return res
 
-    def list_objects_v2(self, Bucket: str, Prefix: str = "", MaxKeys: int = 1000, **kw: Any) -> Dict[str, Any]:
+    def list_objects_v2(self, Bucket: str, Prefix: str = "", MaxKeys: int = 1000, ContinuationToken: Optional[str] = None,
+                        **kw: Any) -> Dict[str, Any]:
         self._chk(Bucket)
-        req = Req("LIST", Prefix, "l")
+        req = Req("LIST", Prefix, "l", extra=ContinuationToken)
         self._gate(req)
         try:
-            keys = sorted(k for k in self.objs if k.startswith(Prefix))[:MaxKeys]
-            res: Dict[str, Any] = {"KeyCount": len(keys)}
+            allkeys = sorted(k for k in self.objs if k.startswith(Prefix))
+            if ContinuationToken:
+                allkeys = [k for k in allkeys if k > ContinuationToken]
+            n = max(1, min(MaxKeys, self.page_size))
+            keys = allkeys[:n]
+            res: Dict[str, Any] = {"KeyCount": len(keys), "IsTruncated": len(allkeys) > n}
+            if res["IsTruncated"]:
+                res["NextContinuationToken"] = keys[-1]
             if keys:
                 res["Contents"] = [
                     {"Key": k, "Size": len(self.objs[k].body), "ETag": self.objs[k].etag,
@@ -242,7 +251,13 @@ class _Paginator:
         self.s3 = s3
 
     def paginate(self, **kw: Any):
-        yield self.s3.list_objects_v2(MaxKeys=10**9, **kw)
+        token = None
+        while True:
+            page = self.s3.list_objects_v2(ContinuationToken=token, **kw) if token else self.s3.list_objects_v2(**kw)
+            yield page
+            if not page.get("IsTruncated"):
+                return
+            token = page["NextContinuationToken"]
 
 
 # ---------------------------------------------------------------------------
